@@ -128,13 +128,25 @@ def correction_sites(run, repo, f, rule='R6.xz'):
     for st, ctx in walk(f.node):
         if isinstance(st, ast.Assign) and isinstance(st.value, ast.Call) and norm(st.value.func) == 'pauli_combine' \
                 and isinstance(st.targets[0], ast.Tuple) and len(st.targets[0].elts) == 2 and st.value.args:
-            comb[norm(st.targets[0].elts[1])] = norm(deref(f, st.value.args[0]))
+            comb.setdefault(norm(st.targets[0].elts[1]), set()).add(norm(deref(f, st.value.args[0])))
     n = 0
+    from ..names import inlined
+
+    def flat(e):
+        # summands of a phase sum, through named partial sums and intermediate reductions mod 4
+        inner, _ = pair.strip_mod(e, 4)
+        out = []
+        for s_, t in pair.summands(inner):
+            t2, was = pair.strip_mod(t, 4)
+            if was or (isinstance(t2, ast.BinOp) and isinstance(t2.op, (ast.Add, ast.Sub))):
+                out.extend((s_ * s2, t3) for s2, t3 in flat(t2))
+            else:
+                out.append((s_, t))
+        return out
     for st, ctx in walk(f.node):
         if not isinstance(st, ast.Assign):
             continue
-        inner, _ = pair.strip_mod(st.value, 4)
-        terms = pair.summands(inner)
+        terms = flat(inlined(f, st.value, skip=set(comb)))
         p0 = [t for s_, t in terms if isinstance(t, ast.Call) and norm(t.func).split('.')[-1] == 'ps0' and t.args]
         used = [norm(t) for s_, t in terms if norm(t) in comb]
         if not p0 or not used:
@@ -143,8 +155,9 @@ def correction_sites(run, repo, f, rule='R6.xz'):
             got = norm(deref(f, c.args[0]))
             for u in used:
                 n += 1
-                run.check(got == comb[u], rule, f, st, 'the x.z correction ps0(%s) must be taken on the strings that select the map rows (%s): '
-                          'a Y outside the transformed qubits must not contribute a factor i' % (got, comb[u]))
+                wrong = sorted(x for x in comb[u] if x != got)
+                run.check(not wrong, rule, f, st, 'the x.z correction ps0(%s) must be taken on the strings that select the map rows (%s): '
+                          'a Y outside the transformed qubits must not contribute a factor i' % (got, ', '.join(wrong)))
     return n
 
 
